@@ -132,6 +132,12 @@ def opRefCrit (args : List SExp) : R SExp := do
     pure (encR (refCriterion (← decProps p) ranked (← decNums d)) encCrit)
   | _ => throw "refcrit: arity"
 
+/-- `(not-used-name (id...) base)` → `name`: `Criteria.NotUsedName` on criteria with the given ids -/
+def opNotUsedName (args : List SExp) : R SExp := do
+  match args with
+  | [ids, base] => pure (.str (notUsedName (← decStrs ids) (← base.asStr)))
+  | _ => throw "not-used-name: arity"
+
 /-- `(conceal-apply orig cur props (refDraws) (genDraws))` → `(ok (dmp report))` | `(err)` -/
 def opConcealApply (args : List SExp) : R SExp := do
   match args with
@@ -287,7 +293,7 @@ def opCheckC19Stages (args : List SExp) : R SExp := do
   | _ => throw "check-c19-stages: arity"
 
 def biasesBOps : List (String × (List SExp → R SExp)) :=
-  [("refcrit", opRefCrit), ("conceal-apply", opConcealApply), ("mixing-apply", opMixingApply),
+  [("refcrit", opRefCrit), ("not-used-name", opNotUsedName), ("conceal-apply", opConcealApply), ("mixing-apply", opMixingApply),
    ("check-c18-conceal", opCheckC18Conceal), ("check-c18-mixing", opCheckC18Mixing),
    ("check-c18-refcrit", opCheckC18RefCrit),
    ("anchoring-refpoints", opAnchRefPoints), ("anchoring-scaling", opAnchScaling),
